@@ -5,7 +5,7 @@ at orders 0..3) and splitting-function cells (every raw label x nf). For every R
  (i)  loc(x_{i+1}) - loc(x_i) + int_{x_i}^{x_{i+1}} sing(z) dz = 0 on a partition of (0, 0.999]
       (the statement loc(x) = delta - int_0^x sing, differenced), evaluated by reference quadrature,
       also per power of nf (evaluations at nf = 0, 1, -1) for the parametrised massless kernels;
- (ii) reg / sing / loc finite real scalars on a z-lattice;
+ (ii) reg / sing / loc finite real scalars on a z-lattice, and the same scalars when asked a second time;
  (iii) a kernel without singular part has an x-independent local part.
 """
 import itertools
@@ -89,6 +89,7 @@ def check_rsl(rsl, label, zmax=1.0, zmin=0.0):
     param = _is_param(rsl)
     tol = TOL_PARAM if param else TOL_ANALYTIC
     # (ii) finiteness
+    first = {}
     for nm, f, a in (("reg", rsl.reg, a_r), ("sing", rsl.sing, a_s), ("loc", rsl.loc, a_l)):
         if f is None:
             continue
@@ -106,8 +107,21 @@ def check_rsl(rsl, label, zmax=1.0, zmin=0.0):
             if not _finite(v):
                 viol.append(("nonfinite", f"{label}: {nm}({z}) = {v!r} is not a finite real scalar [{_fn_id(f)}]"))
                 break
+            first.setdefault((nm, z), v)
     if viol:
         return viol, info
+    # a part denotes a function of (z, args): asked again after the whole lattice has been evaluated it must return the very same number
+    # (a kernel that keeps state between calls - a list it grows, a memo it overwrites - is not one distribution)
+    for nm, f, a in (("reg", rsl.reg, a_r), ("sing", rsl.sing, a_s), ("loc", rsl.loc, a_l)):
+        if f is None:
+            continue
+        for (n2, z), v0 in list(first.items()):
+            if n2 != nm:
+                continue
+            v1 = f(z, a)
+            if not (v1 == v0 or (v1 != v1 and v0 != v0)):
+                viol.append(("not-a-function", f"{label}: {nm}({z}) returned {v0!r} at the first call and {v1!r} when asked again after the lattice had been evaluated [{_fn_id(f)}]"))
+                return viol, info
     if rsl.loc is None and rsl.sing is None:
         return viol, info
     if rsl.loc is None and rsl.sing is not None:
@@ -258,7 +272,7 @@ def execute(st):
             nrej += info.get("n_rejected_explicitly", 0)
             for what, msg in vs[:1]:
                 fnid = _fn_id(rsl.loc) if rsl.loc is not None else _fn_id(rsl.sing if rsl.sing is not None else rsl.reg)
-                if what in ("nonfinite", "raises"):
+                if what in ("nonfinite", "raises", "not-a-function"):
                     fnid = msg.split("[")[-1].rstrip("]")
                 viol.append({"fp": {"cls": what, "class": cname, "order": o, "function": fnid, "process": st["process"], "scheme": st["scheme"]}, "fpkey": {"cls": what, "function": fnid}, "msg": msg})
     return {"violations": viol, "nontrivial": has_sing, "outcome": cellsig, "transitions": nk * (len(PART) + len(ZLAT)), "sub": max(1, nk), "info": dict(agg, n_kernel_cells=nk, n_kernel_rejected_explicitly=nrej)}
